@@ -21,8 +21,9 @@ PROP_ROUTINES = {
     "C05": ["classical_qsvd_full", "classical_qsvd"],
     "C06": ["qr_qua", "qr_qua.wide"],
     "C07": ["quaternion_lu", "quaternion_lu.mode2", "quaternion_lu.wide", "quaternion_lu.tall"],
-    "C08": ["tridiagonalize", "quaternion_eigendecomposition"],
-    "C09": ["hessenbergize"],
+    "C08": ["tridiagonalize", "quaternion_eigendecomposition", "tridiagonalize.lowrank", "quaternion_eigendecomposition.lowrank",
+            "quaternion_eigendecomposition.projector"],
+    "C09": ["hessenbergize", "hessenbergize.lowrank"],
     "C10": ["quaternion_schur", "quaternion_schur_unified"],
     "C11": ["rank", "det", "quat_null_space", "quat_null_space.left"],
     "C12": ["rand_qsvd", "pass_eff_qsvd"],
@@ -33,9 +34,10 @@ PROP_ROUTINES = {
     "C19": ["power_iteration", "power_iteration_nonhermitian"],
 }
 # largest n per routine (pure-Python loops in the library)
-CAP = {"quaternion_schur": 8, "quaternion_schur_unified": 8, "tridiagonalize": 21, "quaternion_eigendecomposition": 21, "hessenbergize": 21,
+CAP = {"quaternion_schur": 8, "quaternion_schur_unified": 8,
        "RandomizedSketchProjectPseudoinverse.compute": 13, "CGNEQSolver.compute": 13, "HybridRSPNewtonSchulz.compute": 13,
-       "QGMRESSolver.solve": 21, "QGMRESSolver.solve.left_lu": 21, "power_iteration_nonhermitian": 13, "det": 21, "quat_null_space": 21, "quat_null_space.left": 21}
+       "QGMRESSolver.solve": 34, "QGMRESSolver.solve.left_lu": 34, "power_iteration_nonhermitian": 13, "power_iteration": 34,
+       "NewtonSchulzPseudoinverse.compute": 34, "HigherOrderNewtonSchulzPseudoinverse.compute": 34}
 
 
 def _q(rng, *shape):
@@ -90,6 +92,18 @@ def build(name, n, rng):
     if name.startswith("quaternion_lu"):
         shp = {"quaternion_lu": (n, n), "quaternion_lu.mode2": (n, n), "quaternion_lu.wide": (n, n + 3), "quaternion_lu.tall": (n + 3, n)}[name]
         return "quaternion_lu", L.LU.quaternion_lu, (_q(rng, *shp),), ({} if name.endswith("mode2") else {"return_p": True})
+    if name.endswith(".lowrank") or name.endswith(".projector"):
+        # repeated eigenvalues at size: Hermitian of rank 3 (eigenvalue 0 with multiplicity n - 3), orthogonal projector
+        G = rng.standard_normal((n, 3, 4))
+        if name.endswith(".projector"):
+            Qm, _ = np.linalg.qr(rng.standard_normal((n, 3)))
+            G = np.zeros((n, 3, 4))
+            G[..., 0] = Qm
+        H = omul(G, oherm(G))
+        H = (H + oherm(H)) / 2.0
+        base = name.split(".")[0]
+        f = {"tridiagonalize": L.tridiag.tridiagonalize, "quaternion_eigendecomposition": L.eigen.quaternion_eigendecomposition, "hessenbergize": L.hess.hessenbergize}[base]
+        return base, f, (q_from_float(H),), {}
     if name == "tridiagonalize":
         return name, L.tridiag.tridiagonalize, (_herm(rng, n),), {}
     if name == "quaternion_eigendecomposition":
@@ -165,7 +179,7 @@ def stage(ctx, quick=False):
     names = PROP_ROUTINES.get(ctx.pid)
     if not names:
         return
-    sizes = [8, 13] if quick else [8, 13, 21, 34]
+    sizes = [8, 13, 34, 67] if quick else [8, 13, 21, 34, 67, 130]
     jobs = []
     for nm in names:
         for n in sizes:
